@@ -224,10 +224,10 @@ func (fr *frame) builtin(b *ssa.Builtin, c *ssa.CallCommon, instr ssa.Value, st 
 		m := fr.val(c.Args[0])
 		k := fr.val(c.Args[1])
 		mt := unalias(c.Args[0].Type()).Underlying().(*types.Map)
-		d := vc.heapDom(vc.sortOf(mt.Key()))
 		fr.frameCheck("frame.mapwrite", m.S, st, pos)
-		cur := vc.heapGet(st, d)
-		vc.heapSet(st, d, fmt.Sprintf("(store %s %s (store (select %s %s) %s false))", cur, m.S, cur, m.S, k.S))
+		mN := vc.define("del_m", "Int", m.S)
+		kN := vc.define("del_k", vc.sortOf(mt.Key()), k.S)
+		vc.mapStore(st, mt, mN, kN, false, "")
 		return []T{}
 	case "min", "max":
 		a := fr.val(c.Args[0])
@@ -483,9 +483,16 @@ func (fr *frame) doMakeMap(x *ssa.MakeMap, st *state) {
 	r := vc.alloc(st)
 	d := vc.heapDom(ks)
 	v := vc.heapVal(ks, vs)
-	vc.heapSet(st, d, fmt.Sprintf("(store %s %s ((as const (Array %s Bool)) false))", vc.heapGet(st, d), r, ks))
+	od := vc.heapGet(st, d)
+	vc.heapSet(st, d, fmt.Sprintf("(store %s %s ((as const (Array %s Bool)) false))", od, r, ks))
 	z := vc.zero(mt.Elem())
-	vc.heapSet(st, v, fmt.Sprintf("(store %s %s ((as const (Array %s %s)) %s))", vc.heapGet(st, v), r, ks, vs, z.S))
+	ov := vc.heapGet(st, v)
+	vc.heapSet(st, v, fmt.Sprintf("(store %s %s ((as const (Array %s %s)) %s))", ov, r, ks, vs, z.S))
+	if len(vc.capStack) == 0 {
+		an := vc.mhas(ks, st.heap[d], "m", "k")
+		vc.emit(fmt.Sprintf("(assert (forall ((m Int) (k %s)) (! (= %s (ite (= m %s) false %s)) :pattern (%s))))", ks, an, r, vc.mhas(ks, od, "m", "k"), an))
+		vc.mapOthersUnchanged(v, st.heap[v], ov, fmt.Sprintf("(not (= m %s))", r))
+	}
 	fr.setVal(x, T{r, "Int", x.Type()})
 }
 
@@ -498,25 +505,51 @@ func (fr *frame) doMapUpdate(x *ssa.MapUpdate, st *state) {
 	ks, vs := vc.sortOf(mt.Key()), vc.sortOf(mt.Elem())
 	fr.obligeHere("safe.nilmap", "", st, fmt.Sprintf("(not (= %s 0))", m.S), fr.pos(x.Pos()))
 	fr.frameCheck("frame.mapwrite", m.S, st, fr.pos(x.Pos()))
-	d := vc.heapDom(ks)
-	vv := vc.heapVal(ks, vs)
-	cd := vc.heapGet(st, d)
-	cv := vc.heapGet(st, vv)
-	vc.heapSet(st, d, fmt.Sprintf("(store %s %s (store (select %s %s) %s true))", cd, m.S, cd, m.S, k.S))
-	vc.heapSet(st, vv, fmt.Sprintf("(store %s %s (store (select %s %s) %s %s))", cv, m.S, cv, m.S, k.S, v.S))
+	_, _ = ks, vs
+	mN := vc.define("mu_m", "Int", m.S)
+	kN := vc.define("mu_k", ks, k.S)
+	vc.mapStore(st, mt, mN, kN, true, v.S)
 }
 
 func (vc *VC) mapHas(st *state, m T, mt *types.Map, k string) string {
-	d := vc.heapDom(vc.sortOf(mt.Key()))
-	return fmt.Sprintf("(select (select %s %s) %s)", vc.heapGet(st, d), m.S, k)
+	ks := vc.sortOf(mt.Key())
+	d := vc.heapDom(ks)
+	return vc.mhas(ks, vc.heapGet(st, d), m.S, k)
 }
 
 func (vc *VC) mapGet(st *state, m T, mt *types.Map, k string) T {
 	ks, vs := vc.sortOf(mt.Key()), vc.sortOf(mt.Elem())
 	v := vc.heapVal(ks, vs)
 	has := vc.mapHas(st, m, mt, k)
-	raw := fmt.Sprintf("(select (select %s %s) %s)", vc.heapGet(st, v), m.S, k)
+	raw := vc.mval(ks, vs, vc.heapGet(st, v), m.S, k)
 	return T{ite(has, raw, vc.zero(mt.Elem()).S), vs, mt.Elem()}
+}
+
+// mapStore updates one key of one map and emits the frame helper axioms.
+func (vc *VC) mapStore(st *state, mt *types.Map, m, k string, present bool, val string) {
+	ks, vs := vc.sortOf(mt.Key()), vc.sortOf(mt.Elem())
+	d := vc.heapDom(ks)
+	cd := vc.heapGet(st, d)
+	pb := "false"
+	if present {
+		pb = "true"
+	}
+	vc.heapSet(st, d, fmt.Sprintf("(store %s %s (store (select %s %s) %s %s))", cd, m, cd, m, k, pb))
+	if len(vc.capStack) == 0 {
+		nd := st.heap[d]
+		an := vc.mhas(ks, nd, "m", "k")
+		vc.emit(fmt.Sprintf("(assert (forall ((m Int) (k %s)) (! (= %s (ite (and (= m %s) (= k %s)) %s %s)) :pattern (%s))))", ks, an, m, k, pb, vc.mhas(ks, cd, "m", "k"), an))
+	}
+	if present {
+		vv := vc.heapVal(ks, vs)
+		cv := vc.heapGet(st, vv)
+		vc.heapSet(st, vv, fmt.Sprintf("(store %s %s (store (select %s %s) %s %s))", cv, m, cv, m, k, val))
+		if len(vc.capStack) == 0 {
+			nv := st.heap[vv]
+			an := vc.mval(ks, vs, nv, "m", "k")
+			vc.emit(fmt.Sprintf("(assert (forall ((m Int) (k %s)) (! (= %s (ite (and (= m %s) (= k %s)) %s %s)) :pattern (%s))))", ks, an, m, k, val, vc.mval(ks, vs, cv, "m", "k"), an))
+		}
+	}
 }
 
 func (fr *frame) doLookup(x *ssa.Lookup, st *state) {
@@ -564,7 +597,7 @@ func (fr *frame) doRange(x *ssa.Range, st *state) {
 	vc.regHeap(seen, "(Array "+ks+" Bool)")
 	vc.heapSet(st, seen, fmt.Sprintf("((as const (Array %s Bool)) false)", ks))
 	d := vc.heapDom(ks)
-	dom0 := vc.define("dom0", "(Array "+ks+" Bool)", fmt.Sprintf("(select %s %s)", vc.heapGet(st, d), m.S))
+	dom0 := vc.heapGet(st, d) // the Dom heap version at Range time; membership is mhas(dom0, m, k)
 	fr.vals[x] = T{m.S, "Int", x.Type()}
 	fr.iters()[x] = &iterState{m, mt, seen, dom0}
 }
@@ -598,8 +631,9 @@ func (fr *frame) doNext(x *ssa.Next, st *state) {
 	// The iterated key set is the domain at Range time (the code under contract does not insert into
 	// a map while ranging over it; deletions/insertions during iteration are outside the model).
 	// ok  => k in dom0 \ seen ; !ok => seen == dom0
-	vc.assume(st.reach, fmt.Sprintf("(=> %s (and (select %s %s) (not (select %s %s))))", ok, it.dom0, k, seen, k))
-	vc.assume(st.reach, fmt.Sprintf("(=> (not %s) (forall ((q %s)) (! (= (select %s q) (select %s q)) :pattern ((select %s q)) :pattern ((select %s q)))))", ok, ks, seen, it.dom0, seen, it.dom0))
+	inDom := func(q string) string { return vc.mhas(ks, it.dom0, it.m.S, q) }
+	vc.assume(st.reach, fmt.Sprintf("(=> %s (and %s (not (select %s %s))))", ok, inDom(k), seen, k))
+	vc.assume(st.reach, fmt.Sprintf("(=> (not %s) (forall ((q %s)) (! (= (select %s q) %s) :pattern ((select %s q)) :pattern (%s))))", ok, ks, seen, inDom("q"), seen, inDom("q")))
 	vc.heapSet(st, it.seen, fmt.Sprintf("(ite %s (store %s %s true) %s)", ok, seen, k, seen))
 	val := vc.mapGet(st, it.m, it.mt, k)
 	val = T{vc.define("it_v", val.Sort, val.S), val.Sort, val.GT}
